@@ -221,3 +221,40 @@ func TestReplay_FailedScopeCreationCancelsContext(t *testing.T) {
 }
 
 var _ = fmt.Sprintf
+
+// scope.setInstance#assert[appended_only_to_a_list_that_will_be_closed]: an instance whose construction overlaps the Close of
+// its scope (sequential form: the constructor closes the scope) must still be closed exactly once.
+func TestReplay_DisposableCreatedWhileScopeCloses(t *testing.T) {
+	for _, lt := range []Lifetime{Scoped, Transient} {
+		c := NewCollection()
+		var sc Scope
+		var made *rpB
+		ctor := func() *rpB {
+			sc.Close()
+			made = &rpB{&rpDisp{name: "late"}}
+			return made
+		}
+		if lt == Scoped {
+			c.AddScoped(ctor)
+		} else {
+			c.AddTransient(ctor)
+		}
+		p, err := c.Build()
+		if err != nil {
+			t.Fatal(err)
+		}
+		sc, err = p.CreateScope(context.Background())
+		if err != nil {
+			t.Fatal(err)
+		}
+		rpNoPanic(t, "scope.setInstance", func() { Resolve[*rpB](sc) })
+		sc.Close()
+		p.Close()
+		if made == nil {
+			t.Fatal("constructor did not run")
+		}
+		if n := atomic.LoadInt32(&made.closed); n != 1 {
+			t.Errorf("REPLAY-CONFIRMED scope.setInstance#assert[appended_only_to_a_list_that_will_be_closed]: %v instance created while its scope was closing was closed %d times after scope and provider were closed, want exactly 1", lt, n)
+		}
+	}
+}
